@@ -30,7 +30,9 @@ let stages : (Stdlib.String.t * (Stdlib.String.t list -> n list)) list = [
      let m = (match f with _ :: m :: _ -> (try int_of_string m with _ -> -1) | _ -> -1) in
      show_walk (if m < 0 then None else Some (nat_of_int m)) (unhex (List.nth f 0)));
   "lit", (fun f -> show_lit (unhex (List.nth f 0)));
-  "cli", (fun f -> show_cli (unhex (List.nth f 0)));
+  "cli", (fun f ->
+     let readerr = (match f with _ :: m :: _ -> m = "filedir" | _ -> false) in
+     show_cli_gen readerr (unhex (List.nth f 0)));
   (* reread: source, parameter pairs, and last the SQL text the implementation produced *)
   "reread", (fun f ->
      let rec pairs = function k :: v :: (_ :: _ as r) -> (unhex k, unhex v) :: pairs r | _ -> [] in
